@@ -92,6 +92,11 @@ Failing(h, e, fl) ==
                    R  == IF a.op = "RefCoordinates"
                          THEN (IF R0.err THEN R0
                                ELSE CliOf("SubAlign", h[recv], Step(h, "SubAlign", recv, [start |-> R0.ret.start, len |-> R0.ret.len])))
+                         ELSE IF a.op = "RefSites" /\ "rev" \in DOMAIN a.a      \* `subsites --ref-seq --reverse`: all but the designated columns
+                         THEN (IF R0.err THEN R0
+                               ELSE LET R1 == Step(h, "InversePositions", recv, [sites |-> R0.ret.sites]) IN
+                                    IF R1.err THEN R1
+                                    ELSE CliOf("SelectSites", h[recv], Step(h, "SelectSites", recv, [sites |-> R1.ret.sites])))
                          ELSE IF a.op \in {"RefSites", "InversePositions"}      \* `subsites --ref-seq` / `--reverse`
                          THEN (IF R0.err THEN R0
                                ELSE CliOf("SelectSites", h[recv], Step(h, "SelectSites", recv, [sites |-> R0.ret.sites])))
